@@ -91,6 +91,17 @@ def c1_call(n, key, seeds, rec, cls, weighted):
     kw = dict(tmin=0, tmax=TMAX, tcount=TCOUNT)
     if weighted:
         kw.update(transmission_weight="w", recovery_weight="g")
+    if weighted and cls == "sorted" and n >= 3:
+        # a contact whose transmission weight is exactly 0 never transmits: adding one between two nodes that are not
+        # neighbours leaves the process (and the exactness on the tree of positive-weight contacts) unchanged
+        for a in range(1, n + 1):
+            for b in range(a + 1, n + 1):
+                if not G.has_edge(a, b):
+                    G.add_edge(a, b, w=0.0)
+                    break
+            else:
+                continue
+            break
     if cls == "attr-weight" and weighted:
         for (a, b) in G.edges():
             G[a][b]["weight"] = G[a][b].pop("w")
